@@ -231,6 +231,14 @@ def one(cs, j):
             sigf = pd.DataFrame(rs.rand(len(data), len(ucols)) > 0.5, index=data.index, columns=ucols)
             if rng.random() < 0.3:
                 sigf = sigf.iloc[::2]
+            shape = rng.choice(["bool", "bool", "lagged", "masked", "flags"])
+            if shape == "lagged":
+                sigf = sigf.shift(1)                                # yesterday's signal: the first row is all missing
+            elif shape == "masked":
+                sigf = sigf.astype(object).where(rs.rand(*sigf.shape) > 0.3, np.nan)    # no signal for some (ticker, date) cells
+            elif shape == "flags":
+                sigf = sigf.astype(float).where(rs.rand(*sigf.shape) > 0.3, np.nan)     # 0/1 flags with gaps
+            w["signal_shape"] = shape
             byname = rng.random() < 0.5
             s.temp["selected"] = ["zz"]
             if byname:
@@ -238,7 +246,7 @@ def one(cs, j):
             algos.SelectWhere("sigf" if byname else sigf, nd_, ng)(s)
             got = list(s.temp["selected"])
             if now in sigf.index:
-                tr = [c for c in ucols if sigf.loc[now, c]]
+                tr = [c for c in ucols if bool(sigf.loc[now, c] == True)]      # noqa: E712  a missing signal is not True
                 ok, detail = flag_check(got, tr if nd_ else tradable(row, tr, ng), tr, row, nd_, ng)
             else:
                 ok = got == ["zz"]
